@@ -344,6 +344,54 @@ namespace
           c.count("stream_round_trips");
         });
       }
+      // ---- re-invocation: read into an already filled target that shares its storage with a bystander (shallow clone);
+      //      the target must afterwards equal the source, the bystander must be untouched; read a second time into the same object
+      op(c, kind + " read into filled target", [&]{
+        const Index nv = MK_::count(c.thorough);
+        for(int tv = 1; tv <= 2; ++tv)
+        {
+          std::string dt;
+          std::stringstream ss; x.write_out(caps.own, ss);
+          const std::string bytes = ss.str();
+          C t = MK_::make((v + Index(tv) * 3 + 1) % nv, 0, dt);
+          C by = t.clone(CloneMode::Shallow);
+          const VFP fby = vfp(by);
+          t.read_from(caps.own, ss);
+          c.check(vfp(t) == f0, kind + " read_from into a filled target", [&]{ return "target was " + dt + ": " + vfp(t).str() + " expected " + f0.str(); });
+          c.check(vfp(by) == fby, kind + " read_from into a filled target changed a container sharing its old arrays", [&]{ return "target was " + dt; });
+          std::stringstream s2(bytes); t.read_from(FileMode::fm_binary, s2);
+          c.check(vfp(t) == f0, kind + " read_from twice into the same object", [&]{ return vfp(t).str(); });
+          // deserialize / restore into a filled target sharing storage
+          C t2 = MK_::make((v + Index(tv) * 3 + 1) % nv, 0, dt);
+          C by2 = t2.clone(CloneMode::Shallow);
+          std::vector<char> buf = x.serialize(cfg);
+          t2.deserialize(buf);
+          c.check(vfp(t2) == f0 && vfp(by2) == fby, kind + " deserialize into a filled target", [&]{ return "target was " + dt + ": " + vfp(t2).str(); });
+          std::vector<char> cpd; x.set_checkpoint_data(cpd, cfg);
+          C t3 = MK_::make((v + Index(tv) * 3 + 1) % nv, 0, dt);
+          C by3 = t3.clone(CloneMode::Shallow);
+          t3.restore_from_checkpoint_data(cpd);
+          t3.restore_from_checkpoint_data(cpd);
+          c.check(vfp(t3) == f0 && vfp(by3) == fby, kind + " restore_from_checkpoint_data twice into a filled target", [&]{ return vfp(t3).str(); });
+        }
+        c.count("filled_target_reads", 8);
+      });
+      // ---- derived objects: clones in every copying mode, moved objects and type-converted-and-back objects write the same bytes
+      op(c, kind + " derived objects", [&]{
+        std::stringstream s0; x.write_out(caps.own, s0);
+        const std::string bytes = s0.str();
+        auto same = [&](const C& d, const char* what)
+        {
+          std::stringstream s1; d.write_out(caps.own, s1);
+          c.check(vfp(d) == f0 && s1.str() == bytes, kind + " derived object (" + what + ") differs or writes other bytes", [&]{ return vfp(d).str() + " expected " + f0.str(); });
+        };
+        { C d = x.clone(CloneMode::Deep); same(d, "deep clone"); C m(std::move(d)); same(m, "move-constructed"); std::string dt; C ma = MK_::make((v + 2) % MK_::count(c.thorough), 0, dt); ma = std::move(m); same(ma, "move-assigned into a filled object"); }
+        { C d = x.clone(CloneMode::Shallow); same(d, "shallow clone"); }
+        { C d = x.clone(CloneMode::Weak); same(d, "weak clone"); }
+        if(narrow_ok) { CX cx; cx.convert(x); C back; back.convert(cx); same(back, "converted to the other data/index types and back"); c.check(vfp(cx) == f0, kind + " converted object differs", [&]{ return vfp(cx).str(); }); }
+        c.check(vfp(x) == f0, kind + " derived objects modified the source", "");
+        c.count("derived_objects", 6);
+      });
       // ---- real files (every fstride-th variant)
       if(v % fstride == 0 && kind.find("SparseVectorBlocked") != std::string::npos && hz.svb_file != 0) c.excluded("SparseVectorBlocked file write (reported once as finding)");
       else if(v % fstride == 0) op(c, kind + " files", [&]{
@@ -375,6 +423,31 @@ namespace
       std::stringstream s2;
       y.write_out(mode, s2);
       c.check(s2.str() == t1, kind + " " + ms + " write(read(write)) not byte-identical", [&]{ return "first=" + t1.substr(0, 200) + " second=" + s2.str().substr(0, 200); });
+      {
+        // re-invocation: read the text into a filled target sharing its arrays with a bystander
+        std::string dt;
+        C t = MK_::make((v + 4) % MK_::count(c.thorough), 0, dt);
+        C by = t.clone(CloneMode::Shallow);
+        const VFP fby = vfp(by);
+        std::stringstream s4(t1);
+        t.read_from(mode, s4);
+        c.check(sem_equal(s0, sem(t), tol), kind + " " + ms + " read into a filled target differs", [&]{ return "target was " + dt + ": " + sem(t).str() + " expected " + s0.str(); });
+        c.check(vfp(by) == fby, kind + " " + ms + " read into a filled target changed a container sharing its old arrays", "");
+      }
+      if(mode == FileMode::fm_mtx && (kind.find("SparseMatrixCSR") != std::string::npos || kind.find("SparseVector<") != std::string::npos))
+      {
+        // orders: a coordinate MatrixMarket file may list its entries in any order: reverse the entry lines
+        std::vector<std::string> lines; { std::stringstream ls(t1); std::string l; while(std::getline(ls, l)) lines.push_back(l); }
+        if(lines.size() > 3)
+        {
+          std::reverse(lines.begin() + 2, lines.end());
+          std::string t2; for(auto& l : lines) t2 += l + "\n";
+          std::stringstream s5(t2);
+          C z(mode, s5);
+          c.check(sem_equal(s0, sem(z), tol), kind + " " + ms + " entries listed in reverse order read differently", [&]{ return sem(z).str() + " expected " + s0.str(); });
+          c.count("scrambled_text_reads");
+        }
+      }
       if(exact)
       {
         std::stringstream s3(t1);
@@ -701,6 +774,70 @@ int main(int argc, char** argv)
     run_kind<MakeCSCR<double, u64>, MakeCSCR<float, u32>>(c, ccscr, "double,u64", true);
     run_kind<MakeCSCR<float, u32>, MakeCSCR<double, u64>>(c, ccscr, "float,u32", true);
 
+    // ---- first observation: a SparseVector filled by insertions in any order is unsorted until its first accessor with the lazy
+    //      sort runs; every persistence operation is performed as the FIRST access on a fresh unsorted vector
+    {
+      const Index nmax = c.thorough ? 5 : 4;
+      for(Index n = 2; n <= nmax; ++n)
+      {
+        // all ordered sequences of distinct indices of length 1..min(n,3)
+        std::vector<std::vector<Index>> seqs;
+        for(Index a = 0; a < n; ++a) { seqs.push_back({a}); for(Index b = 0; b < n; ++b) if(b != a) { seqs.push_back({a, b}); for(Index d = 0; d < n; ++d) if(d != a && d != b) seqs.push_back({a, b, d}); } }
+        for(auto& sq : seqs) for(int first = 0; first < 6; ++first)
+        {
+          if(!c.want()) continue;
+          c.desc([&]{ std::string t = "SparseVector size " + std::to_string(n) + " insertions in order ["; for(Index k : sq) t += std::to_string(k) + ","; return t + "] first access " + std::to_string(first) + " (0 serialize,1 write_out binary,2 write_out fm_mtx,3 checkpoint data,4 operator==,5 clone)"; });
+          auto build = [&]{ SparseVector<double, u64> x(n); for(size_t k = 0; k < sq.size(); ++k) x(sq[k], pv(sq[k], 12)); return x; };
+          Sem want; want.dims = {n, Index(sq.size())};
+          { std::vector<Index> so(sq); std::sort(so.begin(), so.end()); for(Index k : so) { want.pos.push_back(k); want.vals.push_back(pv(k, 12)); } }
+          SparseVector<double, u64> x = build();
+          SparseVector<double, u64> y;
+          SerialConfig cfg(false, false);
+          switch(first)
+          {
+          case 0: { auto buf = x.serialize(cfg); y.deserialize(buf); break; }
+          case 1: { std::stringstream ss; x.write_out(FileMode::fm_binary, ss); y.read_from(FileMode::fm_binary, ss); break; }
+          case 2: { std::stringstream ss; x.write_out(FileMode::fm_mtx, ss); y.read_from(FileMode::fm_mtx, ss); break; }
+          case 3: { std::vector<char> d; x.set_checkpoint_data(d, cfg); y.restore_from_checkpoint_data(d); break; }
+          case 4: { SparseVector<double, u64> z = build(); (void)z.used_elements(); c.check(x == z, "SparseVector operator== as first access on an unsorted vector", ""); y = x.clone(); break; }
+          default: { y = x.clone(CloneMode::Deep); break; }
+          }
+          Sem got = sem(y), src = sem(x);
+          c.check(sem_equal(want, got, 0.0L), "SparseVector persistence as first access on an unsorted vector: read back differs", [&]{ return got.str() + " expected " + want.str(); });
+          c.check(sem_equal(want, src, 0.0L), "SparseVector persistence as first access on an unsorted vector: source differs afterwards", [&]{ return src.str() + " expected " + want.str(); });
+          c.count("first_access_cases");
+          c.nontrivial(verif::Hash().str("first").pod(n).bytes(sq.data(), sq.size() * sizeof(Index)).pod(first).get());
+          c.outcome("first-access");
+        }
+      }
+    }
+    // ---- unusual overloads: a ranged DenseVector (view on a part of another vector, foreign memory) is persisted as a vector of its own
+    for(Index len = 2; len <= (c.thorough ? 9u : 6u); ++len) for(Index off = 0; off < len; ++off) for(Index sz = 1; off + sz <= len; ++sz)
+    {
+      if(!c.want()) continue;
+      c.desc([&]{ return "DenseVector range [" + std::to_string(off) + "," + std::to_string(off + sz) + ") of a vector of length " + std::to_string(len); });
+      DenseVector<double, u64> base(len);
+      for(Index i = 0; i < len; ++i) base(i, pv(i, 13));
+      DenseVector<double, u64> want(sz);
+      for(Index i = 0; i < sz; ++i) want(i, pv(off + i, 13));
+      const VFP fw = vfp(want), fb = vfp(base);
+      DenseVector<double, u64> r(base, sz, off);
+      SerialConfig cfg(false, false);
+      (void)cfg;
+      // serialize / fm_binary / fm_mtx / checkpoint data of a range go through Container::assign, which asserts against foreign
+      // memory sources (documented precondition); the exponent text mode reads the elements directly
+      c.excluded("binary, fm_mtx and checkpoint persistence of a ranged DenseVector (assign from foreign memory is asserted against)");
+      {
+        std::stringstream ss; r.write_out(FileMode::fm_exp, ss);
+        DenseVector<double, u64> y(FileMode::fm_exp, ss);
+        c.check(vfp(y) == fw, "DenseVector range write_out/read_from fm_exp", [&]{ return vfp(y).str() + " expected " + fw.str(); });
+      }
+      // reading INTO a range is not offered (a range does not own its memory); the base vector must be untouched
+      c.check(vfp(base) == fb, "DenseVector range persistence modified the base vector", "");
+      c.count("range_cases");
+      c.nontrivial(verif::Hash().str("range").pod(len).pod(off).pod(sz).get());
+      c.outcome("range");
+    }
     // ---- CSR symmetric MatrixMarket: every symmetric pattern n<=3 (thorough 4)
     for(Index n = 1; n <= (c.thorough ? 4u : 3u); ++n) for(uint64_t lm = 1; lm < (uint64_t(1) << (n * (n + 1) / 2)); ++lm)
     {
